@@ -77,8 +77,18 @@ Proof.
     apply pton6b_iff in H. rewrite H. reflexivity.
 Qed.
 
-Lemma scope_len_ok sc : ((zlen sc <? scope_min)%Z || (zlen sc >? scope_max)%Z) = false <-> (1 <= length sc <= 15)%nat.
-Proof. unfold zlen, blen, scope_min, scope_max. lia. Qed.
+Lemma scope_ok sc :
+  ((zlen sc <? scope_min)%Z || (zlen sc >? scope_max)%Z || existsb (N.eqb scope_forbidden) sc) = false <->
+  (1 <= length sc <= 15)%nat /\ ~ In 47 sc.
+Proof.
+  change scope_forbidden with 47. rewrite orb_false_iff.
+  assert (E : existsb (N.eqb 47) sc = false <-> ~ In 47 sc).
+  { split.
+    - intros H Hin. assert (X : existsb (N.eqb 47) sc = true) by (apply existsb_exists; exists 47; split; [exact Hin|apply N.eqb_refl]). congruence.
+    - intros H. destruct (existsb (N.eqb 47) sc) eqn:X; [|reflexivity]. apply existsb_exists in X. destruct X as [x [Hin Hx]].
+      apply N.eqb_eq in Hx. subst x. contradiction. }
+  rewrite E. unfold zlen, blen, scope_min, scope_max. split; intros [H1 H2]; split; try exact H2; lia.
+Qed.
 
 Theorem is_valid_ipv6_iff s : is_valid_ipv6 s = AOk true <-> ipv6_scoped_text s.
 Proof.
@@ -86,19 +96,30 @@ Proof.
   - destruct s as [|c0 t0]; [discriminate|]. set (s := c0 :: t0).
     destruct (in_dec N.eq_dec 37 s) as [Hin|Hnot].
     + destruct (last_occurrence 37 s Hin) as [a [sc [E Hsc]]]. rewrite E, (rsplit1_last 37 a sc Hsc).
-      destruct ((zlen sc <? scope_min)%Z || (zlen sc >? scope_max)%Z) eqn:B; [discriminate|].
-      rewrite guard_true, netaddr_v6_true_iff. intros H. right. exists a, sc.
-      repeat split; [exact H|apply scope_len_ok in B; lia|apply scope_len_ok in B; lia|exact Hsc].
+      match goal with |- context [if ?b then _ else _] => destruct b eqn:B end; [discriminate|].
+      rewrite guard_true, netaddr_v6_true_iff. intros H. right. exists a, sc. apply scope_ok in B. destruct B as [L S].
+      repeat split; [exact H|lia|lia|exact Hsc|exact S].
     + rewrite (rsplit1_none 37 s Hnot). rewrite guard_true, netaddr_v6_true_iff. intros H. left. exact H.
-  - intros [H|[a [sc [H [L [Hsc ->]]]]]].
+  - intros [H|[a [sc [H [L [Hsc [Hsl ->]]]]]]].
     + pose proof (ipv6_text_nonempty s H) as Hne. destruct s as [|c0 t0]; [congruence|].
       rewrite rsplit1_none by (apply v6_chars_no_percent, ipv6_text_chars, H).
       rewrite guard_true, netaddr_v6_true_iff. exact H.
     + pose proof (ipv6_text_nonempty a H) as Hne. destruct a as [|c0 t0]; [congruence|].
       cbn [app]. change (c0 :: t0 ++ 37 :: sc) with ((c0 :: t0) ++ 37 :: sc).
       rewrite (rsplit1_last 37 _ sc Hsc).
-      replace ((zlen sc <? scope_min)%Z || (zlen sc >? scope_max)%Z) with false by (symmetry; apply scope_len_ok; exact L).
+      match goal with |- context [if ?b then _ else _] => replace b with false by (symmetry; apply scope_ok; split; assumption) end.
       rewrite guard_true, netaddr_v6_true_iff. exact H.
+Qed.
+
+(* no '/' anywhere in an accepted address (agreement with ipaddress, which refuses any '/') *)
+Theorem is_valid_ipv6_no_slash s : is_valid_ipv6 s = AOk true -> ~ In 47 s.
+Proof.
+  intros V Hin. apply is_valid_ipv6_iff in V.
+  assert (T : forall a, ipv6_text a -> ~ In 47 a).
+  { intros a Ha Hi. apply ipv6_text_chars in Ha. rewrite forallb_forall in Ha. specialize (Ha _ Hi). discriminate. }
+  destruct V as [V|[a [sc [Ha [_ [_ [Hsl ->]]]]]]]; [exact (T _ V Hin)|].
+  apply in_app_or in Hin. destruct Hin as [Hi|Hi]; [exact (T _ Ha Hi)|].
+  cbn [app] in Hi. destruct Hi as [Hi|Hi]; [discriminate|contradiction].
 Qed.
 
 (* ================================================================== is_valid_ipv4 (non-strict), is_valid_ip *)
@@ -132,7 +153,7 @@ Proof.
   destruct (ipv4_nonstrict_total aton s C) as [b Hb]. rewrite Hb. destruct b.
   - apply ipv4_nonstrict_logic in Hb. destruct Hb as [Hne ->]. split; [intros _; split; [exact Hne|left; reflexivity]|reflexivity].
   - rewrite is_valid_ipv6_iff. split.
-    + intros H. split; [|right; exact H]. intros ->. destruct H as [H|[a [sc [_ [_ [_ H]]]]]].
+    + intros H. split; [|right; exact H]. intros ->. destruct H as [H|[a [sc [_ [_ [_ [_ H]]]]]]].
       * apply ipv6_text_nonempty in H. congruence.
       * destruct a; discriminate.
     + intros [Hne [Ha|H]]; [|exact H]. subst aton.
@@ -234,12 +255,12 @@ Proof.
 Qed.
 
 (* ================================================================== is_valid_mac *)
-(* the pattern, read off the GENERATED regex: hex hex (':' hex hex) x 5, then `$` *)
+(* the pattern, read off the GENERATED regex: hex hex (':' hex hex) x 5, then \Z (mac_eos) *)
 Definition mac_pat : list bool :=
   [true; true; false; true; true; false; true; true; false; true; true; false; true; true; false; true; true].
 Definition cls_of (b : bool) : cset := if b then [(48, 57); (97, 102)] else [(58, 58)].
 
-Lemma mac_re_flat : flat_eol mac_re = Some (map cls_of mac_pat).
+Lemma mac_re_flat : flat mac_re = Some (map cls_of mac_pat).
 Proof. vm_compute. reflexivity. Qed.
 
 Definition low_class (b : bool) (c : N) : Prop :=
@@ -256,10 +277,10 @@ Proof.
   - split; intros H; inversion H as [|? c ? t' Hc Ht]; subst; constructor; try (apply in_cls_of; exact Hc); apply IH; exact Ht.
 Qed.
 
-Theorem mac_re_match L : re_matchb mac_re L = true <->
-  exists pre, Forall2 low_class mac_pat pre /\ (L = pre \/ L = pre ++ [10]).
+Theorem mac_re_match L : re_match_eos mac_re L = true <-> Forall2 low_class mac_pat L.
 Proof.
-  rewrite (flat_eol_match mac_re _ L mac_re_flat). split; intros [pre [H E]]; exists pre; (split; [apply fits_cls; exact H|exact E]).
+  rewrite <- fits_cls, <- (flat_eos_match mac_re _ L mac_re_flat). unfold re_match_eos.
+  destruct (m _ mac_re L 0 [] _); split; intros H; try reflexivity; try discriminate; congruence.
 Qed.
 
 (* ---------- str.lower() on the MAC alphabet ---------- *)
@@ -404,34 +425,14 @@ Proof.
     repeat (apply Forall2_cons; [cbn [up_class]; first [assumption|reflexivity]|]). apply Forall2_nil.
 Qed.
 
-Lemma lower_ascii1_nl c : lower_ascii1 c = 10 -> c = 10.
-Proof. unfold lower_ascii1. destruct ((65 <=? c) && (c <=? 90)) eqn:E; lia. Qed.
-
-Lemma map_eq_snoc {A B} (f : A -> B) s pre x : map f s = pre ++ [x] ->
-  exists s1 y, s = s1 ++ [y] /\ map f s1 = pre /\ f y = x.
+Theorem is_valid_mac_iff s : is_valid_mac s = true <-> mac_text s.
 Proof.
-  intros H. destruct s as [|a s'] using rev_ind; [destruct pre; discriminate|]. clear IHs'.
-  rewrite map_app in H. cbn [map] in H. apply app_inj_tail in H. destruct H as [H1 H2].
-  exists s', a. repeat split; assumption.
-Qed.
-
-Theorem is_valid_mac_iff s : is_valid_mac s = true <->
-  exists body, mac_text body /\ (s = body \/ s = body ++ [10]).
-Proof.
-  unfold is_valid_mac. rewrite mac_re_match. split.
-  - intros [pre [H E]].
-    assert (HA : forallb inA (py_lower s) = true).
-    { destruct E as [->| ->]; [|rewrite forallb_app]; rewrite (Forall2_low_inA _ _ H); reflexivity. }
-    destruct (py_lower_safe s HA) as [EL _]. rewrite EL in E. destruct E as [E|E].
-    + exists s. split; [|left; reflexivity]. apply mac_shape_text, Forall2_low_up. rewrite E. exact H.
-    + apply map_eq_snoc in E. destruct E as [s1 [y [-> [E Y]]]]. apply lower_ascii1_nl in Y. subst y.
-      exists s1. split; [|right; reflexivity]. apply mac_shape_text, Forall2_low_up. rewrite E. exact H.
-  - intros [body [H E]]. apply mac_shape_text in H.
-    exists (map lower_ascii1 body). split; [apply Forall2_low_up; exact H|].
-    pose proof (Forall2_up_inAU _ _ H) as HU.
-    destruct E as [->| ->].
-    + left. apply py_lower_AU. exact HU.
-    + right. rewrite py_lower_AU by (rewrite forallb_app, HU; reflexivity). rewrite map_app. reflexivity.
+  unfold is_valid_mac. change mac_eos with true. cbv iota. rewrite mac_re_match. split.
+  - intros H. pose proof (Forall2_low_inA _ _ H) as HA.
+    destruct (py_lower_safe s HA) as [EL _]. rewrite EL in H.
+    apply mac_shape_text, Forall2_low_up. exact H.
+  - intros H. apply mac_shape_text in H.
+    rewrite (py_lower_AU s (Forall2_up_inAU _ _ H)). apply Forall2_low_up. exact H.
 Qed.
 
 Lemma Forall2_len {A B} (P : A -> B -> Prop) l t : Forall2 P l t -> length t = length l.
@@ -439,44 +440,6 @@ Proof. intros H. induction H; cbn; [reflexivity|lia]. Qed.
 
 Lemma mac_text_length t : mac_text t -> length t = 17%nat.
 Proof. intros H. apply mac_shape_text in H. apply Forall2_len in H. exact H. Qed.
-
-(* zone of observation O1: the argument ends in a newline *)
-Definition ends_nl (s : str) : bool := match rev s with 10 :: _ => true | _ => false end.
-
-Lemma ends_nl_snoc b : ends_nl (b ++ [10]) = true.
-Proof. unfold ends_nl. rewrite rev_app_distr. reflexivity. Qed.
-
-Lemma head_not_nl c (r : str) : c <> 10 -> match c :: r with 10 :: _ => true | _ => false end = false.
-Proof.
-  intros H. destruct c as [|q]; [reflexivity|]. do 4 (try (destruct q as [q|q|]; try reflexivity)). congruence.
-Qed.
-
-Lemma mac_text_no_nl t : mac_text t -> ends_nl t = false.
-Proof.
-  intros H. apply mac_shape_text in H. unfold mac_pat in H.
-  repeat match goal with
-         | H : Forall2 up_class (_ :: _) _ |- _ => inversion H; clear H; subst
-         | H : Forall2 up_class [] _ |- _ => inversion H; clear H; subst
-         end.
-  unfold ends_nl. cbn [rev app]. refine (head_not_nl _ [] _).
-  match goal with |- ?c <> 10 => match goal with H : up_class true c |- _ => cbn [up_class] in H; unfold hex_char in H; lia end end.
-Qed.
-
-Theorem is_valid_mac_strict_iff s : ends_nl s = false -> (is_valid_mac s = true <-> mac_text s).
-Proof.
-  intros Z. rewrite is_valid_mac_iff. split.
-  - intros [body [H [->| ->]]]; [exact H|]. rewrite ends_nl_snoc in Z. discriminate.
-  - intros H. exists s. split; [exact H|left; reflexivity].
-Qed.
-
-(* the unrestricted statement is refuted by the model: witness replayed on the implementation *)
-Definition mac_full_statement : Prop := forall s, is_valid_mac s = true <-> mac_text s.
-Theorem mac_full_statement_refuted : ~ mac_full_statement.
-Proof.
-  intros H. specialize (H (lit "aa:bb:cc:dd:ee:ff" ++ [10])). destruct H as [H _].
-  assert (E : is_valid_mac (lit "aa:bb:cc:dd:ee:ff" ++ [10]) = true) by (vm_compute; reflexivity).
-  apply H, mac_text_length in E. vm_compute in E. discriminate.
-Qed.
 
 (* ================================================================== _is_int_in_range, port, ICMP *)
 (* translator equivalence: the statement-level translations of the four functions
@@ -597,27 +560,6 @@ Proof. reflexivity. Qed.
 Lemma ipv4_default_strict : ipv4_strict_default = true.
 Proof. reflexivity. Qed.
 
-(* ================================================================== finding K11a: '/' inside a scope id *)
-(* ipaddress refuses any '/' in an address.  The model accepts one exactly inside the scope id. *)
-Definition ipv6_no_slash_statement : Prop := forall s, is_valid_ipv6 s = AOk true -> ~ In 47 s.
-
-Theorem ipv6_no_slash_refuted : ~ ipv6_no_slash_statement.
-Proof.
-  intros H. apply (H (lit "fe80::1%eth0/64")); [vm_compute; reflexivity|].
-  vm_compute. tauto.
-Qed.
-
-Theorem ipv6_slash_only_in_scope s : is_valid_ipv6 s = AOk true -> In 47 s ->
-  exists a sc, s = a ++ [37] ++ sc /\ ipv6_text a /\ In 47 sc.
-Proof.
-  intros V Hin. apply is_valid_ipv6_iff in V. destruct V as [V|[a [sc [Ha [_ [_ ->]]]]]].
-  - exfalso. apply ipv6_text_chars in V. rewrite forallb_forall in V. specialize (V _ Hin). discriminate.
-  - exists a, sc. split; [reflexivity|]. split; [exact Ha|].
-    apply in_app_or in Hin. destruct Hin as [Hin|Hin].
-    + exfalso. apply ipv6_text_chars in Ha. rewrite forallb_forall in Ha. specialize (Ha _ Hin). discriminate.
-    + cbn [app] in Hin. destruct Hin as [Hin|Hin]; [discriminate|exact Hin].
-Qed.
-
 (* ================================================================== non-vacuity: instances of the grammars and of the hypotheses *)
 Example ex_quad : dotted_quad (lit "192.168.0.255").
 Proof. apply pton4b_iff. vm_compute. reflexivity. Qed.
@@ -631,12 +573,13 @@ Example ex_v6_embedded : ipv6_text (lit "::ffff:1.2.3.4") /\ ipv6_text (lit "1:2
 Proof. repeat split; apply pton6b_iff; vm_compute; reflexivity. Qed.
 Example ex_v6_not : ~ ipv6_text (lit "1:2:3:4:5:6:7::8") /\ ~ ipv6_text (lit "1:2:3:4:5:6::1.2.3.4") /\ ~ ipv6_text (lit "1::2::3") /\ ~ ipv6_text (lit "12345::").
 Proof. repeat split; intros H; apply pton6b_iff in H; vm_compute in H; discriminate. Qed.
-Example ex_v6_scoped : ipv6_scoped_text (lit "fe80::1%eth0") /\ ~ ipv6_scoped_text (lit "fe80::1%") /\ ~ ipv6_scoped_text (lit "fe80::1%0123456789abcdef").
+Example ex_v6_scoped : ipv6_scoped_text (lit "fe80::1%eth0") /\ ~ ipv6_scoped_text (lit "fe80::1%") /\ ~ ipv6_scoped_text (lit "fe80::1%0123456789abcdef")
+  /\ ~ ipv6_scoped_text (lit "fe80::1%eth0/64").
 Proof.
-  repeat split; [apply is_valid_ipv6_iff; vm_compute; reflexivity| |]; intros H; apply is_valid_ipv6_iff in H; vm_compute in H; discriminate.
+  repeat split; [apply is_valid_ipv6_iff; vm_compute; reflexivity| | |]; intros H; apply is_valid_ipv6_iff in H; vm_compute in H; discriminate.
 Qed.
-Example ex_mac : mac_text (lit "00:1B:44:11:3a:B7").
-Proof. apply is_valid_mac_strict_iff; vm_compute; reflexivity. Qed.
+Example ex_mac : mac_text (lit "00:1B:44:11:3a:B7") /\ ~ mac_text (lit "00:1B:44:11:3a:B7" ++ [10]) /\ ~ mac_text (lit "00-1B-44-11-3a-B7").
+Proof. repeat split; [apply is_valid_mac_iff; vm_compute; reflexivity| |]; intros H; apply is_valid_mac_iff in H; vm_compute in H; discriminate. Qed.
 Example ex_ip_logic_hyp : aton_contract (ARaise AAddrFormatError) = true /\ is_valid_ip (ARaise AAddrFormatError) (lit "::1") = AOk true.
 Proof. split; vm_compute; reflexivity. Qed.
 Example ex_total_hyp : aton_contract (ARaise AValueError) = true /\ net_contract (ARaise AValueError) = true /\ net_contract (ARaise ATypeError) = true
@@ -645,8 +588,6 @@ Proof. repeat split; vm_compute; reflexivity. Qed.
 Example ex_cidr : is_valid_cidr (AOk true) (lit "10.0.0.0/8") = AOk true /\ is_valid_cidr (AOk true) (lit "10.0.0.0") = AOk false
   /\ is_valid_cidr (AOk true) (lit "10.0.0.0/") = AOk false.
 Proof. repeat split; vm_compute; reflexivity. Qed.
-Example ex_mac_zone : ends_nl (lit "00:1B:44:11:3a:B7") = false.
-Proof. vm_compute. reflexivity. Qed.
 Example ex_port : gen_is_valid_port (VStr (lit "65535")) = Ok true /\ gen_is_valid_port (VStr (lit "65536")) = Ok false
   /\ gen_is_valid_port (VInt 0) = Ok true /\ gen_is_valid_port (VInt (-1)) = Ok false /\ gen_is_valid_port VNone = Ok false
   /\ gen_is_valid_icmp_code VNone = Ok true /\ gen_is_valid_icmp_type VNone = Ok false.
